@@ -8,7 +8,7 @@ META = {
     "technique": 'contract-based deductive verification: symbolic execution of the real functions against sidecar contracts (z3/cvc5) for the proved units; bounded contract evaluation (enumerated scope / independent writer) for the rest',
     "level": "other",
     "partial": True,
-    "level_text": "Proof: _create_xref on a stub method whose instruction has a symbolic opcode (all 256 values): exactly 0x1a/0x1b "
+    "level_text": "Bounded on REAL DEX files (independent writer, real parser, real Analysis, merged or split): every string lists exactly the const-string(/jumbo) sites, every class exactly the new-instance / const-class sites (arrays by element class) of the model. Proof: _create_xref on a stub method whose instruction has a symbolic opcode (all 256 values): exactly 0x1a/0x1b "
                   "record the instruction (class, method, offset) on the loaded string and on no other string; exactly 0x22 / 0x1c on "
                   "another class record a new-instance / const-class usage on that class and on the method, and nothing else. "
                   "Bounded: exactness over every enumerated world (internal, other-DEX, external, array and primitive types; the "
@@ -88,3 +88,37 @@ def exact_usage(U, chunk):
 
 
 exact_usage.enumerate_inputs = lambda tier, chunk: S.enum_inputs(tier, chunk)
+
+
+from contracts import xrefreal as XR  # noqa: E402
+import random as _random  # noqa: E402
+
+
+@unit("C15", covers=[(ANA, "Analysis._create_xref"), (ANA, "StringAnalysis.add_xref_from"), (ANA, "ClassAnalysis.add_xref_new_instance"),
+                     (ANA, "ClassAnalysis.add_xref_const_class")], level="bounded", samples=60, note=XR.NOTE)
+def real_dex_string_and_class_usage(U):
+    seed = U.int("seed", 0, 1 << 30)
+    rng = _random.Random(seed)
+    classes = XR.model(rng)
+    groups = rng.choice(list(XR.splits(classes)))
+    o = U.call(XR.analyse, U, classes, groups)
+    U.ensures("analysis does not raise", o.ok, exc=repr(o.exc)[:200])
+    if not o.ok:
+        return
+    exp, defined = XR.expected(classes)
+    v = S.view(o.value)
+    for s, sites in exp["strings"].items():
+        got = {(m2[:3], off) for _, m2, off in v["strings"].get(s, [])}
+        U.ensures("a string lists exactly the const-string(/jumbo) instructions that load it", got == sites, string=s, got=sorted(got),
+                  want=sorted(sites), groups=groups)
+    for s, refs in v["strings"].items():
+        if s not in exp["strings"]:
+            U.ensures("a string no instruction loads has no cross-reference", not refs, string=s, got=refs[:3])
+    for ck, cx in v["classx"].items():
+        for key, kind in (("new", "new"), ("const", "const")):
+            got = {(m2[:3], off) for m2, off in cx[key]}
+            U.ensures("a class lists exactly the %s instructions that name it (arrays by element class)" %
+                      ("new-instance" if key == "new" else "const-class"), got == exp[kind].get(ck[0], set()), cls=ck, got=sorted(got),
+                      want=sorted(exp[kind].get(ck[0], set())), groups=groups)
+    for t in list(exp["new"]) + list(exp["const"]):
+        U.ensures("every referenced class is known to the analysis", any(ck[0] == t for ck in v["classx"]), cls=t)
